@@ -88,7 +88,12 @@ ThirdPartyDelta ==
 
 \* The whole cycle. cv: curve value; lo: output of the control loop; t: rescaled target
 \* (t is a parameter because the float evaluation has a one-off envelope, see Numeric).
-CycleT(cv, lo, lp, t) ==
+\* Two things the environment can do to a cycle are parameters (named deviations from the undisturbed cycle):
+\*   refused  - the device refuses the PWM write of this cycle (the request is recorded as set all the same, the error is logged);
+\*   tookBack - the firmware takes the fan back to automatic mode right after the cycle's write of the control mode: the
+\*              read-back does not show manual mode and the code falls back to mode 0 ("disabled": no regulation by the
+\*              chip, the PWM value is still honoured) - trySetManualPwm's second attempt.
+CycleEnvT(cv, lo, lp, t, refused, tookBack) ==
   LET x     == Clamp(lo, 0, P)
       mx    == cfg.mx
       stall == cfg.hasRpm /\ cfg.neverStop /\ last = t /\ AvgStalled
@@ -114,11 +119,13 @@ CycleT(cv, lo, lp, t) ==
             /\ fanMin' = IF raise /\ BugD1 /\ cfg.kind = "hwmon" THEN offset + 1 ELSE fanMin
             /\ avg'    = IF raise THEN Rat(1, 1) ELSE avg
             /\ last'   = req
-            /\ mode'   = IF cfg.hasMode THEN Manual ELSE mode
-            /\ pwm'    = IF skip THEN pwm ELSE w
+            /\ mode'   = IF tookBack THEN 0 ELSE IF cfg.hasMode THEN Manual ELSE mode
+            /\ pwm'    = IF skip \/ refused THEN pwm ELSE w
             /\ out'    = [ev |-> "Cycle", cv |-> cv, req |-> req, err |-> FALSE,
                           wrote |-> IF skip THEN Nil ELSE w, raised |-> raise, tp |-> tp]
             /\ UNCHANGED cfg
+
+CycleT(cv, lo, lp, t) == CycleEnvT(cv, lo, lp, t, FALSE, FALSE)
 
 Cycle(cv, lo, lp) == \E t \in RescaleSet(Clamp(lo, 0, P), Floor, cfg.mx) : CycleT(cv, lo, lp, t)
 
